@@ -234,6 +234,8 @@ type sendCase struct {
 	failWrite  int
 	msg        datatransfer.Message
 	exhaustive bool
+	// earlier sends on the same network object: number of failed attempts each of them saw before it succeeded
+	earlier []int
 }
 
 type sendResult struct {
@@ -248,6 +250,22 @@ func runSend(t *testing.T, c sendCase) sendResult {
 	synctest.Test(t, func(t *testing.T) {
 		h := &hostDouble{t0: time.Now(), self: gen.Peer(0), pattern: c.pattern, lat: c.lat, failWr: c.failWrite, handlers: map[protocol.ID]network.StreamHandler{}}
 		n := dtnet.NewFromLibp2pHost(h, dtnet.RetryParameters(c.minB, c.maxB, float64(c.attempts), c.factor), dtnet.SendMessageParameters(c.openTO, 10*time.Second))
+		// earlier sends on the same network object (each send is a fresh start: what they
+		// went through must not change what this send is allowed)
+		for _, fails := range c.earlier {
+			h.mu.Lock()
+			h.pattern = nil
+			for k := 0; k < fails; k++ {
+				h.pattern = append(h.pattern, false)
+			}
+			h.pattern = append(h.pattern, true)
+			h.calls, h.streams, h.failWr = nil, nil, 0
+			h.mu.Unlock()
+			_ = n.SendMessage(context.Background(), gen.Peer(3), c.msg)
+		}
+		h.mu.Lock()
+		h.pattern, h.calls, h.streams, h.failWr, h.t0 = c.pattern, nil, nil, c.failWrite, time.Now()
+		h.mu.Unlock()
 		ctx, cancel := context.WithCancel(context.Background())
 		done := make(chan struct{})
 		if c.cancelAt >= 0 {
@@ -397,14 +415,17 @@ func TestC15_Send(t *testing.T) {
 		if rapid.IntRange(0, 3).Draw(rt, "writeFails") == 0 {
 			c.failWrite = rapid.IntRange(1, 2).Draw(rt, "failWrite")
 		}
+		for k := rapid.IntRange(0, 2).Draw(rt, "earlierSends"); k > 0; k-- {
+			c.earlier = append(c.earlier, rapid.IntRange(0, 3).Draw(rt, "earlierFailures"))
+		}
 		r := runSend(t, c)
 		if key, m := checkSend(c, r); key != "" {
 			var calls []string
 			for _, x := range r.calls {
 				calls = append(calls, fmt.Sprintf("#%d [%v,%v] ok=%v", x.index, x.at, x.end, x.ok))
 			}
-			rt.Fatalf("VIOLATION-KEY=%s %s\ncase: attempts=%d pattern=%v latency=%v openTimeout=%v backoff=[%v,%v]x%v cancelAt=%v failWrite=%d\nresult: err=%v returnedAt=%v\nNewStream calls:\n  %s",
-				key, m, c.attempts, c.pattern, c.lat, c.openTO, c.minB, c.maxB, c.factor, c.cancelAt, c.failWrite, r.err, r.retAt, strings.Join(calls, "\n  "))
+			rt.Fatalf("VIOLATION-KEY=%s %s\ncase: earlier sends on the same network object (failed attempts each)=%v attempts=%d pattern=%v latency=%v openTimeout=%v backoff=[%v,%v]x%v cancelAt=%v failWrite=%d\nresult: err=%v returnedAt=%v\nNewStream calls:\n  %s",
+				key, m, c.earlier, c.attempts, c.pattern, c.lat, c.openTO, c.minB, c.maxB, c.factor, c.cancelAt, c.failWrite, r.err, r.retAt, strings.Join(calls, "\n  "))
 		}
 		sp.Eval()
 		failedThenMore := len(r.calls) >= 2 || (len(r.calls) >= 1 && c.cancelAt >= 0 && !r.calls[0].ok)
@@ -425,6 +446,9 @@ func TestC15_Send(t *testing.T) {
 		}
 		if c.failWrite != 0 {
 			sp.Class("send_with_write_fault")
+		}
+		if len(c.earlier) > 0 {
+			sp.Class("send_after_earlier_sends_on_the_same_network")
 		}
 	})
 }
